@@ -432,6 +432,10 @@ func (s *reportSim) Run() []bool {
 			break
 		} else if nWarriors > 1 && aliveCount == 1 {
 			break
+		} else if aliveCount == 0 {
+			// nobody is left to run (or nobody was ever spawned): no later
+			// cycle can change anything
+			break
 		}
 	}
 
